@@ -1,6 +1,8 @@
-(* Proofs/NodeTyped.v — the repeated-key clause of C12 on the model of the typed engines
-   (Node/Typed.v): holds for the repaired quirk setting, refuted for the pinned one. *)
-Require Import IP.Base.Bytes IP.DM.Value IP.Node.Basic IP.Node.Typed.
+(* Proofs/NodeTyped.v — the typed engines (Node/Typed.v) on the PINNED quirk setting: witnesses that
+   the all-scripts statement (Proofs/NodeTypedAll.v, proved for every setting with the protocol
+   defects off) fails there, one per known finding; and the single-call repeated-key statement. *)
+Require Import IP.Base.Bytes IP.DM.Value IP.Node.Basic IP.Node.Typed IP.Node.TypedProtocol
+  IP.Proofs.NodeTypedAll.
 Open Scope N_scope.
 
 (* a repeated key, through AssembleEntry or through the key assembler, is reported as repeated_key
@@ -11,18 +13,28 @@ Definition typed_dup_statement (e : engine) (q : tquirks) : Prop :=
        TErr TERepeated (TOpen (TStruct done vals TsInitial :: r)) /\
      tstep e q (TOpen (TStruct done vals TsMidKey :: r)) (AssignString k) =
        TErr TERepeated (TOpen (TStruct done vals TsInitial :: r))) /\
-  (forall t r k, mem_key k t = true ->
-     tstep e q (TOpen (TMap t TmInitial :: r)) (AssembleEntry k) =
-       TErr TERepeated (TOpen (TMap t TmInitial :: r)) /\
-     tstep e q (TOpen (TMap t TmMidKey :: r)) (AssignString k) =
-       TErr TERepeated (TOpen (TMap t TmInitial :: r))).
+  (forall vt t r k, mem_key k t = true ->
+     tstep e q (TOpen (TMap vt t TmInitial :: r)) (AssembleEntry k) =
+       TErr TERepeated (TOpen (TMap vt t TmInitial :: r)) /\
+     tstep e q (TOpen (TMap vt t TmMidKey :: r)) (AssignString k) =
+       TErr TERepeated (TOpen (TMap vt t TmInitial :: r))).
+
+Lemma typed_dup_ok : forall e q, tq_ok e q -> typed_dup_statement e q.
+Proof.
+  intros e q Hq. split.
+  - intros done vals r f k Hf Hd. split.
+    + apply (sentry_dup e q done vals r k f); auto.
+    + apply (skey_dup e q done vals r k f); auto. constructor.
+  - intros vt t r k Hm. split.
+    + apply mentry_dup; auto.
+    + apply (mkey_dup e q vt t r k); auto. constructor.
+Qed.
+
+Lemma tq_ok_repaired : forall e, tq_ok e trepaired.
+Proof. destruct e; split; reflexivity. Qed.
 
 Lemma typed_dup_repaired : forall e, typed_dup_statement e trepaired.
-Proof.
-  intros e. split.
-  - intros done vals r f k Hf Hd. destruct e; simpl; rewrite Hf, Hd; simpl; auto.
-  - intros t r k Hm. destruct e; simpl; rewrite Hm; simpl; auto.
-Qed.
+Proof. intros. apply typed_dup_ok. apply tq_ok_repaired. Qed.
 
 Definition whee_done : list nat := [0%nat].
 
@@ -35,28 +47,214 @@ Proof.
     destruct (Hs whee_done [] [] 0%nat f_whee eq_refl eq_refl) as [_ H]. discriminate H.
 Qed.
 
-(* the generated map never checks a key that arrives through AssembleKey *)
-Lemma gen_map_keypath_refuted :
-  tstep EGen tpinned (TOpen [TMap [([97], [])] TmMidKey; TRoot TyM]) (AssignString [97]) =
-  TOk (TOpen [TMap [([97], [])] (TmExpectValue [97]); TRoot TyM]).
-Proof. reflexivity. Qed.
+(* ------------------------------------------------------------------ whole-script witnesses *)
+(* the all-scripts statement on the pinned tree: what the repaired grammar admits, run on the pinned
+   models *)
+Definition typed_all_scripts_pinned (e : engine) : Prop :=
+  forall ty v aops, TScript e trepaired ty v aops ->
+  trun_tol e tpinned (tinit ty) (map fst aops) = (map snd aops, Some (TDone v)).
 
-(* witnesses as whole runs *)
-Lemma bind_dup_run :
-  fst (trun_tol EBind tpinned (tinit TyS)
-         [BeginMap 3; AssembleEntry f_whee; AssignInt 1; AssembleEntry f_whee]) = [TSOk; TSOk; TSOk; TSOk] /\
-  fst (trun_tol EBind trepaired (tinit TyS)
-         [BeginMap 3; AssembleEntry f_whee; AssignInt 1; AssembleEntry f_whee]) = [TSOk; TSOk; TSOk; TSErr TERepeated].
-Proof. split; reflexivity. Qed.
+Definition s123 : svals := [(0%nat, 1%Z); (1%nat, 2%Z); (2%nat, 3%Z)].
+
+(* whee=1, a second whee (must be refused), woot=2, waga=3 *)
+Definition dup_field_script : list (aop * tsres) :=
+  [tok (BeginMap 3); tok (AssembleEntry f_whee); tok (AssignInt 1);
+   (AssembleEntry f_whee, TSErr TERepeated);
+   tok (AssembleEntry f_woot); tok (AssignInt 2); tok (AssembleEntry f_waga); tok (AssignInt 3); tok Finish].
+
+Lemma dup_field_script_legal : forall e q, TScript e q TyS (TVS s123) dup_field_script.
+Proof.
+  intros. simpl. apply (SS_begin e [] 3 s123). { constructor. }
+  apply (SB_entry e [] [] s123 f_whee 0%nat [] (AssignInt 1) 1%Z); try reflexivity; try constructor.
+  apply (SB_dup_entry e [0%nat] _ s123 f_whee 0%nat); try reflexivity.
+  apply (SB_entry e [0%nat] _ s123 f_woot 1%nat [] (AssignInt 2) 2%Z); try reflexivity; try constructor.
+  apply (SB_entry e [1%nat; 0%nat] _ s123 f_waga 2%nat [] (AssignInt 3) 3%Z); try reflexivity; try constructor.
+  reflexivity.
+Qed.
+
+(* bind_struct_dup_accepted *)
+Lemma bind_struct_dup_refuted : ~ typed_all_scripts_pinned EBind.
+Proof.
+  intros H. specialize (H TyS (TVS s123) dup_field_script (dup_field_script_legal EBind trepaired)).
+  vm_compute in H. discriminate H.
+Qed.
+
+Definition k_a : bytes := [97].
+Definition msg3_entries (h : Z) : list (aop * tsres) :=
+  [tok (BeginMap h); tok (AssembleEntry f_whee); tok (AssignInt 1); tok (AssembleEntry f_woot); tok (AssignInt 2);
+   tok (AssembleEntry f_waga); tok (AssignInt 3); tok Finish].
+
+Lemma msg3_entries_legal : forall e q h, TScript e q TyS (TVS s123) (msg3_entries h).
+Proof.
+  intros. simpl. apply (SS_begin e [] h s123). { constructor. }
+  apply (SB_entry e [] [] s123 f_whee 0%nat [] (AssignInt 1) 1%Z); try reflexivity; try constructor.
+  apply (SB_entry e [0%nat] _ s123 f_woot 1%nat [] (AssignInt 2) 2%Z); try reflexivity; try constructor.
+  apply (SB_entry e [1%nat; 0%nat] _ s123 f_waga 2%nat [] (AssignInt 3) 3%Z); try reflexivity; try constructor.
+  reflexivity.
+Qed.
+
+(* {a: msg3}, then key a again through AssembleEntry *)
+Definition dup_mapkey_entry_script : list (aop * tsres) :=
+  tok (BeginMap 1) :: tok (AssembleEntry k_a) :: msg3_entries 3 ++
+  [(AssembleEntry k_a, TSErr TERepeated); tok Finish].
+(* ... and through the key assembler *)
+Definition dup_mapkey_key_script : list (aop * tsres) :=
+  tok (BeginMap 1) :: tok (AssembleEntry k_a) :: msg3_entries 3 ++
+  [tok AssembleKey; (AssignString k_a, TSErr TERepeated); tok Finish].
+
+Lemma dup_mapkey_entry_legal : forall e q,
+  TScript e q (TyM TyS) (TVM [(k_a, TVS s123)]) dup_mapkey_entry_script.
+Proof.
+  intros. simpl. apply (MST_begin e q _ TyS [] 1 [(k_a, TVS s123)]). { constructor. }
+  apply (MBT_entry _ [] _ k_a (TVS s123) (msg3_entries 3)); [reflexivity|apply (msg3_entries_legal e q 3)|].
+  apply (MBT_dup_entry _ [(k_a, TVS s123)] _ k_a); [reflexivity|]. constructor.
+Qed.
+
+Lemma dup_mapkey_key_legal : forall e q,
+  TScript e q (TyM TyS) (TVM [(k_a, TVS s123)]) dup_mapkey_key_script.
+Proof.
+  intros. simpl. apply (MST_begin e q _ TyS [] 1 [(k_a, TVS s123)]). { constructor. }
+  apply (MBT_entry _ [] _ k_a (TVS s123) (msg3_entries 3)); [reflexivity|apply (msg3_entries_legal e q 3)|].
+  apply (MBT_dup_key _ [(k_a, TVS s123)] _ k_a [] (AssignString k_a)); [reflexivity|constructor|constructor|].
+  constructor.
+Qed.
+
+(* bind_map_dup_accepted *)
+Lemma bind_map_dup_refuted :
+  trun_tol EBind tpinned (tinit (TyM TyS)) (map fst dup_mapkey_entry_script) <>
+  (map snd dup_mapkey_entry_script, Some (TDone (TVM [(k_a, TVS s123)]))).
+Proof. vm_compute. discriminate. Qed.
+
+(* gen_map_keypath_dup_accepted: the generated map refuses the key through AssembleEntry but not
+   through the key assembler *)
+Lemma gen_map_keypath_refuted : ~ typed_all_scripts_pinned EGen.
+Proof.
+  intros H. specialize (H (TyM TyS) _ dup_mapkey_key_script (dup_mapkey_key_legal EGen trepaired)).
+  vm_compute in H. discriminate H.
+Qed.
+
+Lemma gen_map_entrypath_ok :
+  trun_tol EGen tpinned (tinit (TyM TyS)) (map fst dup_mapkey_entry_script) =
+  (map snd dup_mapkey_entry_script, Some (TDone (TVM [(k_a, TVS s123)]))).
+Proof. vm_compute. reflexivity. Qed.
+
+(* gen_struct_key_not_rolled_back (fixed in the tree by cdcca1a; the switch is still modelled) *)
+Definition dup_field_key_script : list (aop * tsres) :=
+  [tok (BeginMap 3); tok (AssembleEntry f_whee); tok (AssignInt 1);
+   tok AssembleKey; (AssignString f_whee, TSErr TERepeated);
+   tok (AssembleEntry f_woot); tok (AssignInt 2); tok (AssembleEntry f_waga); tok (AssignInt 3); tok Finish].
 
 Lemma gen_stuck_run :
-  fst (trun_tol EGen tpinned (tinit TyS)
-         [BeginMap 3; AssembleEntry f_whee; AssignInt 1; AssembleKey; AssignString f_whee; AssembleKey]) =
+  fst (trun_tol EGen tpinned (tinit TyS) (map fst dup_field_key_script)) =
     [TSOk; TSOk; TSOk; TSOk; TSErr TERepeated; TSPanic] /\
-  fst (trun_tol EGen trepaired (tinit TyS)
-         [BeginMap 3; AssembleEntry f_whee; AssignInt 1; AssembleKey; AssignString f_whee; AssembleKey]) =
-    [TSOk; TSOk; TSOk; TSOk; TSErr TERepeated; TSOk].
-Proof. split; reflexivity. Qed.
+  trun_tol EGen trepaired (tinit TyS) (map fst dup_field_key_script) =
+    (map snd dup_field_key_script, Some (TDone (TVS s123))).
+Proof. split; vm_compute; reflexivity. Qed.
 
+(* gen_map_assignnode_foreign_panic: AssignNode of a non-empty basicnode map *)
+Definition plain_msg3 : node :=
+  let t := [(f_whee, NInt 1); (f_woot, NInt 2); (f_waga, NInt 3)] in NMap t (rev t).
+Definition plain_map_a : node := NMap [(k_a, plain_msg3)] [(k_a, plain_msg3)].
+
+Lemma gen_map_node_legal :
+  TScript EGen trepaired (TyM TyS) (TVM [(k_a, TVS s123)]) [tok (AssignNode plain_map_a)].
+Proof.
+  simpl. apply (MST_node EGen trepaired _ TyS [] plain_map_a (TVM [(k_a, TVS s123)])).
+  - constructor.
+  - vm_compute. reflexivity.
+  - left. reflexivity.
+Qed.
+
+Lemma gen_map_node_refuted :
+  trun_tol EGen tpinned (tinit (TyM TyS)) [AssignNode plain_map_a] = ([TSPanic], None) /\
+  trun_tol EBind tpinned (tinit (TyM TyS)) [AssignNode plain_map_a] =
+    ([TSOk], Some (TDone (TVM [(k_a, TVS s123)]))).
+Proof. split; vm_compute; reflexivity. Qed.
+
+(* bind_reset_panics *)
 Lemma bind_reset_refuted : treset_ok EBind tpinned = false /\ treset_ok EBind trepaired = true.
 Proof. split; reflexivity. Qed.
+
+(* ------------------------------------------------------------------ non-vacuity: struct in map in list *)
+(* [ {a: msg3} , {} ] on the generated engine, with a wrong-kind call at every level, an unknown
+   field, a Finish that comes too early, a repeated field through the key assembler and a repeated
+   map key *)
+Definition nested_value : tval := TVL [TVM [(k_a, TVS s123)]; TVM []].
+
+Definition nested_script : list (aop * tsres) :=
+  [ (AssignInt 5, TSErr TEWrong); (BeginMap 0, TSErr TEWrong); tok (BeginList 2);
+      tok AssembleValue;
+        (BeginList 0, TSErr TEWrong); tok (BeginMap 1);
+          tok AssembleKey; (AssignInt 1, TSErr TEWrong); tok (AssignString k_a); tok AssembleValue;
+            (AssignString k_a, TSErr TEWrong); tok (BeginMap 3);
+              (AssembleEntry [120], TSErr TEInvalidKey);
+              tok (AssembleEntry f_whee); (AssignString [49], TSErr TEWrong); tok (AssignInt 1);
+              (Finish, TSErr TEMissing);
+              tok AssembleKey; (AssignString f_whee, TSErr TERepeated);
+              tok AssembleKey; tok (AssignNode (NString f_woot)); tok AssembleValue; tok (AssignNode (NInt 2));
+              tok (AssembleEntry f_waga); tok (AssignInt 3);
+            tok Finish;
+          (AssembleEntry k_a, TSErr TERepeated);
+        tok Finish;
+      tok AssembleValue; tok (BeginMap (-1)); tok Finish;
+    tok Finish ].
+
+Example nested_script_legal : forall q, TScript EGen q (TyL (TyM TyS)) nested_value nested_script.
+Proof.
+  intros q. simpl.
+  apply (LST_begin _ (TyM TyS) [(AssignInt 5, TSErr TEWrong); (BeginMap 0, TSErr TEWrong)] 2
+           [TVM [(k_a, TVS s123)]; TVM []]).
+  { repeat constructor. }
+  apply (LBT_value _ [] _ (TVM [(k_a, TVS s123)])
+           ((BeginList 0, TSErr TEWrong) :: tok (BeginMap 1) ::
+            [tok AssembleKey; (AssignInt 1, TSErr TEWrong); tok (AssignString k_a); tok AssembleValue;
+             (AssignString k_a, TSErr TEWrong); tok (BeginMap 3);
+             (AssembleEntry [120], TSErr TEInvalidKey);
+             tok (AssembleEntry f_whee); (AssignString [49], TSErr TEWrong); tok (AssignInt 1);
+             (Finish, TSErr TEMissing);
+             tok AssembleKey; (AssignString f_whee, TSErr TERepeated);
+             tok AssembleKey; tok (AssignNode (NString f_woot)); tok AssembleValue; tok (AssignNode (NInt 2));
+             tok (AssembleEntry f_waga); tok (AssignInt 3);
+             tok Finish;
+             (AssembleEntry k_a, TSErr TERepeated);
+             tok Finish])).
+  - (* the first element: {a: msg3} *)
+    apply (MST_begin EGen q _ TyS [(BeginList 0, TSErr TEWrong)] 1 [(k_a, TVS s123)]).
+    { repeat constructor. }
+    apply (MBT_key _ [] _ k_a (TVS s123) [(AssignInt 1, TSErr TEWrong)] (AssignString k_a)
+             [(AssignString k_a, TSErr TEWrong); tok (BeginMap 3);
+              (AssembleEntry [120], TSErr TEInvalidKey);
+              tok (AssembleEntry f_whee); (AssignString [49], TSErr TEWrong); tok (AssignInt 1);
+              (Finish, TSErr TEMissing);
+              tok AssembleKey; (AssignString f_whee, TSErr TERepeated);
+              tok AssembleKey; tok (AssignNode (NString f_woot)); tok AssembleValue; tok (AssignNode (NInt 2));
+              tok (AssembleEntry f_waga); tok (AssignInt 3);
+              tok Finish]).
+    + reflexivity.
+    + repeat constructor.
+    + constructor.
+    + (* the struct *)
+      apply (SS_begin EGen [(AssignString k_a, TSErr TEWrong)] 3 s123). { repeat constructor. }
+      apply (SB_unknown_entry EGen [] [] s123 [120]); [reflexivity|reflexivity|].
+      apply (SB_entry EGen [] [] s123 f_whee 0%nat [(AssignString [49], TSErr TEWrong)] (AssignInt 1) 1%Z);
+        try reflexivity; [repeat constructor|constructor|].
+      apply (SB_missing EGen [0%nat] _ s123); [reflexivity|].
+      apply (SB_dup_key EGen [0%nat] _ s123 f_whee 0%nat [] (AssignString f_whee));
+        [reflexivity|reflexivity|constructor|constructor|].
+      apply (SB_key EGen [0%nat] _ s123 f_woot 1%nat [] (AssignNode (NString f_woot)) [] (AssignNode (NInt 2)) 2%Z);
+        try reflexivity; [constructor|apply TKG_node; reflexivity|constructor|apply IG_node; reflexivity|].
+      apply (SB_entry EGen [1%nat; 0%nat] _ s123 f_waga 2%nat [] (AssignInt 3) 3%Z);
+        try reflexivity; [constructor|constructor|].
+      apply SB_finish. reflexivity.
+    + apply (MBT_dup_entry _ [(k_a, TVS s123)] _ k_a); [reflexivity|]. constructor.
+  - (* the second element: {} *)
+    apply (LBT_value _ [TVM [(k_a, TVS s123)]] _ (TVM []) [tok (BeginMap (-1)); tok Finish]).
+    + apply (MST_begin EGen q _ TyS [] (-1) []). { constructor. } constructor.
+    + constructor.
+Qed.
+
+(* ... and it runs as annotated (an instance of the theorem; also checked by computation) *)
+Example nested_script_runs :
+  trun_tol EGen trepaired (tinit (TyL (TyM TyS))) (map fst nested_script) =
+  (map snd nested_script, Some (TDone nested_value)).
+Proof. vm_compute. reflexivity. Qed.
